@@ -72,7 +72,9 @@ TEMPLATES = ['[a]({p})', '[a](<{p}>)', '![{p}](x)', '![a]({p})', '![a](x "{p}")'
              '<http://x/{p}>', '<{p}@example.com>', '[a]: {p} "{p}"\n\n[a]', '[{p}]: /u "t"\n\n[{p}]', '`{p}`', '    {p}', '# {p}', '> {p}', '- {p}', '**{p}**',
              '| {p} |\n|---|\n| {p} |', '[{p}](u)', '![a](<{p}> "{p}")', '{p}', 'a *{p}* ~~{p}~~', '[a][{p}]\n\n[{p}]: <{p}> ({p})', '1. {p}\n2. `{p}`',
              # rich content in one slot, the payload in another
-             '[*c* "q" <b>](/u \'{p}\')', '![*c* "q"](/i "{p}")', '[**s** \'q\'][r]\n\n[r]: /u "{p}"', '[`co` & "q"]({p} "t")', '![a "b"]({p})']
+             '[*c* "q" <b>](/u \'{p}\')', '![*c* "q"](/i "{p}")', '[**s** \'q\'][r]\n\n[r]: /u "{p}"', '[`co` & "q"]({p} "t")', '![a "b"]({p})',
+             # an EMPTY slot next to the payload (a renderer may fill the gap from the other slot)
+             '[]({p})', '![]({p})', '[][r]\n\n[r]: <{p}>', '[](u "{p}")', '![](i \'{p}\')', '<xy:a@b{p}>', '<irc://n@h/{p}>']
 
 OPTS = [dict(process_html_tokens=p, html_escape_double_quotes=d, html_escape_single_quotes=s) for p in (False, True) for d in (False, True) for s in (False, True)]
 
